@@ -327,15 +327,36 @@ func (s *vSrv) clientHandle(_ context.Context, _ *jsonrpc2.Conn, req *jsonrpc2.R
 	return struct{}{}, nil
 }
 
+// vBounded runs f and gives up after d.  Writing a message to the in-memory pipe blocks until the
+// server's read loop takes it, and that loop runs the handlers: a handler that is stuck (e.g. on a job
+// channel nobody drains) would otherwise hang the client side as well.  The abandoned goroutine ends
+// when the connection is closed.
+func vBounded(d time.Duration, f func() error) error {
+	done := make(chan error, 1)
+
+	go func() { done <- f() }()
+
+	select {
+	case err := <-done:
+		return err
+	case <-time.After(d):
+		return context.DeadlineExceeded
+	}
+}
+
 func (s *vSrv) call(method string, params, result any) error {
-	ctx, cancel := context.WithTimeout(s.ctx, vCallTimeout)
+	return s.callT(vCallTimeout, method, params, result)
+}
+
+func (s *vSrv) callT(d time.Duration, method string, params, result any) error {
+	ctx, cancel := context.WithTimeout(s.ctx, d)
 	defer cancel()
 
-	return s.conn.Call(ctx, method, params, result)
+	return vBounded(d+5*time.Second, func() error { return s.conn.Call(ctx, method, params, result) })
 }
 
 func (s *vSrv) notify(method string, params any) error {
-	return s.conn.Notify(s.ctx, method, params)
+	return vBounded(vCallTimeout, func() error { return s.conn.Notify(s.ctx, method, params) })
 }
 
 // send delivers a message either as a request (waiting for the response: the handler has returned)
